@@ -10,11 +10,12 @@
 //!     payload > 65535 bytes → pack Err.
 use identity_core::common::{Object, Url};
 use identity_core::convert::FromJson;
-use identity_did::{CoreDID, DIDUrl};
+use identity_did::{CoreDID, DIDUrl, DID};
 use identity_document::document::CoreDocument;
 use identity_document::service::Service;
 use identity_iota_core::{IotaDID, IotaDocument, IotaDocumentMetadata, StateMetadataDocument, StateMetadataEncoding};
-use identity_verification::{MethodRef, VerificationMethod};
+use identity_verification::jwk::Jwk;
+use identity_verification::{CustomMethodData, MethodData, MethodRef, MethodType, VerificationMethod};
 use serde_json::{json, Map, Value};
 use std::collections::BTreeSet;
 use vh::panicmon::catch;
@@ -441,7 +442,7 @@ impl Gen<'_> {
       _ => ("EcdsaSecp256k1RecoveryMethod2020", "blockchainAccountId", Value::String(format!("eip155:1:0x{}", hex(&self.rng.bytes(20))))),
     };
     // custom method data cannot carry extra properties through plain JSON (not this property's concern)
-    let props = if data_key == "blockchainAccountId" { Map::new() } else { gen_props(self.rng, &["note", "owner", "x-meta", "revoked", "nested"], 2, &me, &self.foreign) };
+    let props = if data_key == "blockchainAccountId" || !self.rng.chance(1, 4) { Map::new() } else { gen_props(self.rng, &["note", "owner", "x-meta", "revoked", "nested"], 2, &me, &self.foreign) };
     MethodM { id, ctrl, ty: ty.to_string(), data_key: data_key.to_string(), data, props }
   }
 
@@ -528,7 +529,7 @@ fn gen_doc(rng: &mut Rng, big: bool) -> DocM {
   }
 
   let mult = if big { 6 } else { 1 };
-  let mut g = Gen { rng, me: me.clone(), foreign: foreign.clone(), used: BTreeSet::new(), counter: 0 };
+  let mut g = Gen { rng: &mut *rng, me: me.clone(), foreign: foreign.clone(), used: BTreeSet::new(), counter: 0 };
   let n_vm = g.rng.usize(4 * mult);
   let vm: Vec<MethodM> = (0..n_vm).map(|_| g.method()).collect();
   let mut rel: [Vec<RefM>; 5] = Default::default();
@@ -727,16 +728,30 @@ fn obj(m: &Map<String, Value>) -> Object {
 }
 
 /// Builds the document through the builders instead of document-level deserialisation.
-fn build_with_builder(m: &DocM) -> IotaDocument {
-  let cx = Cx { me: &m.me, foreign: &m.foreign };
-  let method = |x: &MethodM| -> VerificationMethod { serde_json::from_value(x.render(&cx)).expect("model method") };
+fn build_with_builder(m: &DocM, me: &str) -> IotaDocument {
+  let cx = Cx { me, foreign: &m.foreign };
+  let method = |x: &MethodM| -> VerificationMethod {
+    let data = match x.data_key.as_str() {
+      "publicKeyMultibase" => MethodData::PublicKeyMultibase(x.data.as_str().expect("string").to_string()),
+      "publicKeyBase58" => MethodData::PublicKeyBase58(x.data.as_str().expect("string").to_string()),
+      "publicKeyJwk" => MethodData::PublicKeyJwk(Jwk::from_json_value(x.data.clone()).expect("model jwk")),
+      name => MethodData::Custom(CustomMethodData { name: name.to_string(), data: x.data.clone() }),
+    };
+    VerificationMethod::builder(obj(&x.props))
+      .id(DIDUrl::parse(x.id.render(&cx)).expect("model method id"))
+      .controller(CoreDID::parse(cx.did(x.ctrl)).expect("model method controller"))
+      .type_(MethodType::custom(&x.ty))
+      .data(data)
+      .build()
+      .expect("model method")
+  };
   let mref = |x: &RefM| -> MethodRef {
     match x {
       RefM::Embed(mm) => MethodRef::Embed(method(mm)),
       RefM::Refer(u) => MethodRef::Refer(DIDUrl::parse(u.render(&cx)).expect("model did url")),
     }
   };
-  let mut b = CoreDocument::builder(obj(&m.props)).id(CoreDID::parse(&m.me).expect("self did"));
+  let mut b = CoreDocument::builder(obj(&m.props)).id(CoreDID::parse(me).expect("self did"));
   for c in &m.controllers {
     b = b.controller(CoreDID::parse(cx.did(*c)).expect("controller did"));
   }
@@ -800,31 +815,49 @@ impl H {
 
   /// Everything the property says about one document. `exhaustive_header`: all 7x255 single-byte
   /// header mutations.
-  fn run_doc(&mut self, rng: &mut Rng, m: &DocM, n_targets: usize, exhaustive_header: bool, via_builder: bool, idx: u64) {
+  fn run_doc(&mut self, rng: &mut Rng, m: &DocM, n_targets: usize, exhaustive_header: bool, via_text: bool, idx: u64) {
     self.rep.eval();
     self.rep.inc("documents");
     let orig_json = m.render(&m.me, false, false);
     let exp_len = m.packed_len();
     let doc_for_case = if exp_len <= 6000 { orig_json.clone() } else { json!(format!("<omitted, packed payload {} bytes; regenerate with the seed>", exp_len)) };
-    let case = json!({"self": m.me, "doc_index": idx, "packed_payload_len": exp_len, "built_with": if via_builder {"builder"} else {"from_json"}, "document": doc_for_case});
+    let how = if m.ctrl_array1 { "builder, then JSON text with the controller written as a one-element array" } else if via_text { "builder, then re-read from its JSON text" } else { "builder" };
+    let case = json!({"self": m.me, "doc_index": idx, "packed_payload_len": exp_len, "built_with": how, "document": doc_for_case});
 
     // ---- set-up: the library object for the model (not under test here)
-    let built = if via_builder {
-      self.lib("build", &case, || Ok(build_with_builder(m)))
-    } else {
-      self.lib("from_json", &case, || IotaDocument::from_json_value(orig_json.clone()))
-    };
-    let doc: IotaDocument = match built {
+    let Some(mut doc) = self.lib("build", &case, || build_with_builder(m, &m.me)) else { return };
+    // Does the document survive the library's plain JSON text round trip at all? (Not this property's
+    // business, but a pack round trip cannot be better than that: used to attribute `==` failures.)
+    let Some(text) = self.lib("serialize", &case, || serde_json::to_string(&doc)) else { return };
+    let mut text = text.expect("serialising a document");
+    let reread = match self.lib("from_json", &case, || IotaDocument::from_json(&text)) {
       None => return,
+      Some(Err(e)) => panic!("document JSON text rejected by IotaDocument::from_json: {} — {}", e, text),
       Some(Ok(d)) => d,
-      Some(Err(e)) => panic!("harness model rejected by IotaDocument::from_json: {} — {}", e, orig_json),
     };
+    let plain_ok = reread == doc;
+    if !plain_ok {
+      self.rep.inc("plain_json_roundtrip_unequal");
+    }
+    if m.ctrl_array1 {
+      // only JSON text can carry a one-element controller array
+      let c = Cx { me: &m.me, foreign: &m.foreign }.did(m.controllers[0]).to_string();
+      let prefix = format!("{{\"doc\":{{\"id\":\"{}\",\"controller\":\"{}\"", m.me, c);
+      assert!(text.starts_with(&prefix), "unexpected document JSON layout: {}", text);
+      text = format!("{{\"doc\":{{\"id\":\"{}\",\"controller\":[\"{}\"]{}", m.me, c, &text[prefix.len()..]);
+      match self.lib("from_json", &case, || IotaDocument::from_json(&text)) {
+        None => return,
+        Some(Err(e)) => panic!("document JSON text rejected by IotaDocument::from_json: {} — {}", e, text),
+        Some(Ok(d)) => doc = d,
+      }
+      self.rep.inc("built_from_json_text");
+    } else if via_text && plain_ok {
+      doc = reread;
+      self.rep.inc("built_from_json_text");
+    }
+    let method_props = m.vm.iter().any(|x| !x.props.is_empty()) || m.rel.iter().any(|r| r.iter().any(|x| matches!(x, RefM::Embed(mm) if !mm.props.is_empty())));
     let Some(ser) = self.lib("serialize", &case, || serde_json::to_value(&doc)) else { return };
     let ser = ser.expect("serialising a document");
-    if via_builder {
-      // the builder collapses nothing the model does not: same JSON expected
-      self.rep.inc("built_with_builder");
-    }
     if let Some(d) = first_diff(&ser, &orig_json, "") {
       panic!("harness model and library serialisation disagree at {} — model {} — library {}", d, orig_json, ser);
     }
@@ -943,14 +976,22 @@ impl H {
           if let Some(j2) = j2 {
             if j2 != same_want && j2 != same_alt {
               let d = first_diff(&j2, &same_want, "").unwrap_or_default();
-              let plain = catch(|| IotaDocument::from_json_value(ser.clone()).map(|x| x == doc)).ok().and_then(|r| r.ok()).unwrap_or(false);
+              let plain = catch(|| IotaDocument::from_json(&serde_json::to_string(&doc).expect("serialise")).map(|x| x == doc)).ok().and_then(|r| r.ok()).unwrap_or(false);
               self.rep.violation(
                 &format!("roundtrip-mismatch:{}{}", diff_class(&d), if plain { "" } else { ":plain-json-too" }),
                 &format!("unpack(pack(doc)) for the same DID differs from doc at {}", d),
                 json!({"case": case, "got": if exp_len <= 6000 { j2 } else { Value::Null }}),
               );
             } else if d2 != want_doc {
-              if m.ctrl_array1 && j2 == same_want {
+              if !plain_ok {
+                // one report per document; the rebase checks below then compare JSON only
+                let sig = if method_props { "roundtrip-unequal:method-with-extra-properties-reparsed-as-custom-data" } else { "roundtrip-unequal:plain-json-roundtrip-also-unequal" };
+                self.rep.violation(
+                  sig,
+                  "unpack(pack(doc)) serialises exactly like doc but compares unequal, and so does IotaDocument::from_json(doc.to_json()): a verification method carrying custom properties is re-read with MethodData::Custom(<one of its properties>) and its real key material moved into `properties`",
+                  case.clone(),
+                );
+              } else if m.ctrl_array1 && j2 == same_want {
                 self.rep.violation(
                   "roundtrip-unequal:one-element-controller-array-becomes-single-value",
                   &format!("document with \"controller\":[\"{}\"] comes back with \"controller\":\"…\" and compares unequal (same controller set)", Cx { me: &m.me, foreign: &m.foreign }.did(m.controllers[0])),
@@ -969,12 +1010,13 @@ impl H {
     }
 
     // ---- other DIDs
+    let class = m.class();
     for t in gen_targets(rng, m, n_targets) {
       let tcase = json!({"target": t.spelling, "target_normalised": t.expect, "target_kind": t.kind, "case": case});
       let tdid = match self.lib("IotaDID::parse", &tcase, || IotaDID::parse(&t.spelling)) {
         Some(Ok(d)) if d.as_str() == t.expect => d,
         _ => {
-          self.rep.inc("target_did_not_normalised_as_expected");
+          self.rep.inc(&format!("target_unusable:{}", t.kind));
           continue;
         }
       };
@@ -986,7 +1028,7 @@ impl H {
       self.rep.inc("oracle_checks");
       self.rep.inc("rebase_checks");
       let same = t.expect == m.me;
-      self.rep.distinct("nontrivial", &format!("{}|{}", m.class(), t.kind));
+      self.rep.distinct("nontrivial", &format!("{}|{}", class, t.kind));
       let d3 = match r {
         Ok(d) => d,
         Err(e) => {
@@ -1007,15 +1049,18 @@ impl H {
         );
         continue;
       }
-      // library value built from the harness's expected JSON
-      match self.lib("from_json", &tcase, || IotaDocument::from_json_value(want.clone())) {
-        Some(Ok(w)) => {
-          if w != d3 {
+      // the same model built through the builders for the target DID
+      match self.lib("build", &tcase, || build_with_builder(m, &t.expect)) {
+        Some(mut w) => {
+          w.metadata.governor_address = None;
+          w.metadata.state_controller_address = None;
+          if !plain_ok {
+            self.rep.inc("rebase_eq_skipped_plain_json_lossy");
+          } else if w != d3 {
             self.rep.violation("rebase-unequal:same-json", "rebased document serialises as expected but `==` with the expected document is false", tcase.clone());
             continue;
           }
         }
-        Some(Err(e)) => panic!("expected rebased document rejected by from_json: {} — {}", e, want),
         None => continue,
       }
       self.rep.inc("rebase_ok");
@@ -1024,7 +1069,8 @@ impl H {
         self.rep.count("foreign_refs_preserved", n_foreign);
       }
       // packing the rebased document gives the same bytes unless T also occurs as a foreign DID
-      if !m.foreign.iter().any(|f| *f == t.expect) {
+      // (member order inside a re-read method differs when the plain JSON round trip is already lossy)
+      if plain_ok && !m.foreign.iter().any(|f| *f == t.expect) {
         if let Some(rp) = self.lib("pack", &tcase, || d3.pack()) {
           match rp {
             Ok(b) if b == bytes => self.rep.inc("repack_identical"),
@@ -1056,7 +1102,7 @@ impl H {
 
     // ---- truncations: the prefix now exceeds the data
     {
-      let mut cuts: Vec<usize> = (0..=8.min(bytes.len() - 1)).collect();
+      let mut cuts: Vec<usize> = (0..=8usize.min(bytes.len() - 1)).collect();
       cuts.push(bytes.len() - 1);
       for _ in 0..3 {
         cuts.push(rng.usize(bytes.len()));
@@ -1155,6 +1201,14 @@ fn frame(version: u8, encoding: u8, len: u16, body: &[u8]) -> Vec<u8> {
 }
 
 fn main() {
+  // harness-internal panics are silenced by the panic monitor's hook: print them before dying
+  if let Err(p) = catch(real_main) {
+    eprintln!("C14 harness died: {} at {}", p.msg, p.loc());
+    std::process::exit(101);
+  }
+}
+
+fn real_main() {
   let args = Args::parse();
   let scale = args.extra_u64("scale", 1000);
   let mut h = H { rep: Report::new("C14") };
@@ -1176,8 +1230,8 @@ fn main() {
   for i in 0..n_docs {
     let big = rng.chance(1, 12);
     let m = gen_doc(&mut rng, big);
-    let via_builder = !m.ctrl_array1 && rng.chance(1, 3);
-    h.run_doc(&mut rng, &m, 3, i % exhaustive_every == 0, via_builder, i);
+    let via_text = rng.chance(1, 3);
+    h.run_doc(&mut rng, &m, 3, i % exhaustive_every == 0, via_text, i);
     if h.rep.want_sample() {
       h.rep.sample(json!({"self": m.me, "foreign": m.foreign, "class": m.class(), "packed_payload_len": m.packed_len()}));
     }
@@ -1190,7 +1244,8 @@ fn main() {
   let rounds = if args.thorough { (3 * scale / 1000).max(1) } else { 1 };
   for round in 0..rounds {
     for (k, s) in sizes.iter().enumerate() {
-      let mut m = gen_doc(&mut rng, rng.chance(1, 3));
+      let big = rng.chance(1, 3);
+      let mut m = gen_doc(&mut rng, big);
       let base = m.packed_len();
       let target = match *s {
         // wrap-around sizes: a truncating cast would produce a plausible small prefix
